@@ -31,6 +31,14 @@ def configs(tier):
     cfgs.append(V(kind="generic", depth=1, W=2, contended_timeouts=True))
     cfgs.append(stages.MultiTan(nimg=3, W=2))
     cfgs.append(stages.MultiWcs(nimg=2, W=2))
+    cfgs.append(V(kind="generic", depth=1, W=2, quiet_messages=True, foreign_child=True))
+    if tier == "quick":
+        # larger item sets (16 leaves / 21 tiles, more than the bounded queue holds) whose full graphs belong to
+        # the thorough tier: every schedule within a few departures from the default order
+        cfgs.append(V(kind="generic", depth=2, W=2, max_deviations=3))
+        cfgs.append(V(kind="generic", depth=2, W=3, max_deviations=2))
+        cfgs.append(T(depth=2, W=2, max_deviations=2))
+        cfgs.append(stages.MultiTan(nimg=6, W=2, max_deviations=2))
     if tier == "thorough":
         cfgs.append(V(kind="generic", depth=1, W=3))
         cfgs.append(V(kind="generic", depth=1, W=1))
@@ -56,7 +64,8 @@ def run(tier, seed):
     rep.rule = (
         "stateful exhaustive exploration of every interleaving of the real stage code over the virtual "
         "multiprocessing layer, per configuration (stage, item set, workers, pipe capacity); a state is "
-        "non-trivial when it is a distinct canonical state; evaluations = executions of the implementation"
+        "non-trivial when it is a distinct canonical state; evaluations = executions of the implementation; configurations "
+        "carrying max_deviations=k are explored for every schedule within k departures from the default order instead (named in the notes)"
     )
     rep.assumptions = stages.ASSUMPTIONS
     cfgs = configs(tier)
